@@ -79,8 +79,10 @@ fn unop() -> impl Strategy<Value = UnOp> {
     (0..UnOp::ALL.len()).prop_map(|i| UnOp::ALL[i])
 }
 
-fn binop_no_instanceof() -> impl Strategy<Value = BinOp> {
-    (0..BinOp::ALL.len()).prop_map(|i| BinOp::ALL[i]).prop_filter("instanceof handled separately", |o| *o != BinOp::InstanceOf)
+fn binop_no_instanceof(small: bool) -> BoxedStrategy<BinOp> {
+    // with `small_numbers` the value may become a wx:for count: no operator that can turn small operands into billions
+    let ops: Vec<BinOp> = BinOp::ALL.iter().copied().filter(|o| *o != BinOp::InstanceOf && !(small && matches!(o, BinOp::Shl | BinOp::UShr))).collect();
+    (0..ops.len()).prop_map(move |i| ops[i]).boxed()
 }
 
 pub fn expr(cfg: &ExprCfg) -> BoxedStrategy<Expr> {
@@ -97,7 +99,7 @@ fn expr_at(cfg: &ExprCfg, depth: u32) -> BoxedStrategy<Expr> {
     let mut alts: Vec<(u32, BoxedStrategy<Expr>)> = vec![
         (6, leaf(cfg)),
         (3, (unop(), sub.clone()).prop_map(|(o, a)| Expr::Unary(o, Box::new(a))).boxed()),
-        (8, (binop_no_instanceof(), sub.clone(), sub.clone()).prop_map(|(o, a, b)| Expr::Binary(o, Box::new(a), Box::new(b))).boxed()),
+        (8, (binop_no_instanceof(c.small_numbers), sub.clone(), sub.clone()).prop_map(|(o, a, b)| Expr::Binary(o, Box::new(a), Box::new(b))).boxed()),
         (
             if c.instanceof { 1 } else { 0 },
             (sub.clone(), 0..CTOR_IDENTS.len(), any::<bool>())
